@@ -16,11 +16,20 @@ The translator executes the function body *symbolically*: an environment maps lo
 Spec (one entry of "translate" in props/Cxx.json):
   file, fn, [impl] (text that must occur in the `impl` header enclosing the fn), lean_name,
   params  e.g. "(t l now : Nat)",  ret  e.g. "Nat × Nat",
-  atoms   {rust expression text (whitespace-free) -> Lean term}   opaque leaves: fields, external calls, constants
+  atoms   {rust expression text (whitespace-free) -> Lean term}   opaque leaves: fields, external calls, constants;
+          `{x}` inside the Lean term is replaced by the current symbolic value of the Rust local `x`
   outputs list of "return" and/or place names ("self.value"); the generated def returns them as a tuple in this order
   inline  [method names of the same impl that are inlined when called as self.m(...)]
   ctor    {"Self": "tuple"|"<LeanCtor>"}  how `Self(a, b)` / `Self { f: a, .. }` / `Name(a,b)` are rendered
   bool_ret true if the Rust return type is bool (conditions are Props; the result is wrapped in `decide`)
+  methods {name: {"value": tpl, "recv": tpl}}  templates ({recv}, {0}, {1}…) for calls on a known place; "recv" updates the place
+  patterns {rust path: lean pattern/term}  for `match` arms and enum constants, e.g. {"Ordering::Less": ".lt"}
+  effects {statement text: {place: lean template}}  effect of an opaque statement on modelled places ({place}/{local} = current values)
+  anchor  regex inside the fn body; only the `{…}` block that follows the match is translated (body of a loop / closure)
+
+Also supported: `match` on Option / Result / tuples / enum constants with guards and or-patterns (first-match
+semantics, compiled to nested Lean `match`), `let Some(x) = e else { return … };`, let-chains
+`if let Some(x) = e && cond`, closures as opaque text inside atoms keys (`.and_modify(|m| …)`).
 """
 import json
 import re
@@ -158,6 +167,18 @@ class Parser:
 
     def stmt(self):
         kind, v = self.peek()
+        if v == "let" and self.peek(1)[1] in ("Some", "Ok") and self.peek(2)[1] == "(":
+            self.next()
+            ctor = self.next()[1]
+            self.expect("(")
+            var = self.next()[1]
+            self.expect(")")
+            self.expect("=")
+            e = self.expr(no_struct=True)
+            self.expect("else")
+            els = self.block()
+            self.expect(";")
+            return ("letelse", ctor, var, e, els)
         if v == "let":
             self.next()
             self.accept("mut")
@@ -189,7 +210,7 @@ class Parser:
             return ("assign", e, op, rhs)
         if self.accept(";"):
             return ("exprstmt", e)
-        if e[0] in ("if", "iflet", "blockexpr", "match") and self.peek()[1] != "}" and self.peek()[0] != "eof":
+        if e[0] in ("if", "iflet", "blockexpr", "match") and self.peek()[1] not in ("}", ".", "?") and self.peek()[0] != "eof":
             return ("exprstmt", e)
         return ("tail", e)
 
@@ -279,8 +300,76 @@ class Parser:
             else:
                 return e
 
+    def mpattern(self):
+        """pattern of a match arm / let-else: _ | ident | Path | Path(p, ..) | (p, ..) | literal | &p | ref p"""
+        k, v = self.peek()
+        if v in ("&", "ref", "mut"):
+            self.next()
+            return self.mpattern()
+        if v == "(":
+            self.next()
+            items = []
+            while not self.accept(")"):
+                items.append(self.mpattern())
+                self.accept(",")
+            return ("mp_tuple", items)
+        self.next()
+        if k == "num":
+            return ("mp_lit", v.replace("_", ""))
+        if k != "id":
+            raise TranslateError(f"unsupported match pattern at {v!r}")
+        if v == "_":
+            return ("mp_wild",)
+        path = [v]
+        while self.peek()[1] == "::":
+            self.next()
+            path.append(self.next()[1])
+        name = "::".join(path)
+        if self.peek()[1] == "(":
+            self.next()
+            items = []
+            while not self.accept(")"):
+                items.append(self.mpattern())
+                self.accept(",")
+            return ("mp_ctor", name, items)
+        if len(path) == 1 and (v[0].islower() or v[0] == "_"):
+            return ("mp_var", v)
+        return ("mp_ctor", name, [])
+
     def primary(self, no_struct):
+        start = self.i
         k, v = self.next()
+        if v == "move" and self.peek()[1] in ("|", "||"):
+            k, v = self.next()
+        if v in ("|", "||") and k == "op":
+            # closure: kept as opaque text (usable only through an atoms / methods entry)
+            if v == "|":
+                while self.next()[1] != "|":
+                    pass
+            if self.peek()[1] == "{":
+                self.block()
+            else:
+                self.expr()
+            return ("closure", "".join(t[1] for t in self.t[start:self.i]))
+        if v == "match":
+            scrut = self.expr(no_struct=True)
+            self.expect("{")
+            arms = []
+            while not self.accept("}"):
+                pats = [self.mpattern()]
+                while self.accept("|"):
+                    pats.append(self.mpattern())
+                guard = None
+                if self.accept("if"):
+                    guard = self.expr(no_struct=True)
+                self.expect("=>")
+                if self.peek()[1] == "{":
+                    body = self.block()
+                else:
+                    body = ("block", [("tail", self.expr())])
+                self.accept(",")
+                arms.append((pats, guard, body))
+            return ("match", scrut, arms)
         if k == "num":
             return ("num", re.sub(r"[iu](8|16|32|64|128|size)$", "", v).replace("_", ""))
         if k == "str":
@@ -380,6 +469,8 @@ def unparse(e):
         return unparse(e[1]) + "[" + unparse(e[2]) + "]"
     if k == "await":
         return unparse(e[1]) + ".await"
+    if k == "closure":
+        return e[1]
     return "<" + k + ">"
 
 
@@ -406,6 +497,7 @@ class Translator:
         self.atoms = {re.sub(r"\s+", "", k): v for k, v in spec.get("atoms", {}).items()}
         self.inline = set(spec.get("inline", []))
         self.methods = spec.get("methods", {})
+        self.effects = {re.sub(r"\s+", "", k): v for k, v in spec.get("effects", {}).items()}
         self.fresh = 0
         self.ctor = spec.get("ctor", {})
         self.depth = 0
@@ -420,7 +512,9 @@ class Translator:
             if key in st.places:
                 return st.places[key]
             if key in self.atoms:
-                return self.atoms[key]
+                # `{name}` inside an atom's Lean term refers to the current value of the Rust local `name`
+                # (needed when a match arm / let-else binds or shadows a variable)
+                return re.sub(r"\{(\w+)\}", lambda m: st.locals.get(m.group(1), m.group(0)), self.atoms[key])
         if k == "num":
             return e[1]
         if k == "path":
@@ -442,6 +536,8 @@ class Translator:
             return self.if_expr(e, st)
         if k == "iflet":
             return self.iflet_expr(e, st)
+        if k == "match":
+            return self.match_expr(e, st)
         if k == "blockexpr":
             s2 = st.copy()
             v = self.block(e[1], s2)
@@ -510,21 +606,120 @@ class Translator:
 
     def iflet_expr(self, e, st):
         _, var, scrut, then, els = e
+        guard_e = None
+        if scrut[0] == "bin" and scrut[1] == "&&":      # let-chain: if let Some(x) = e && cond
+            scrut, guard_e = scrut[2], scrut[3]
         sv = self.ex(scrut, st)
         self.fresh += 1
         bound = f"{var}_{self.fresh}"
         s1, s2 = st.copy(), st.copy()
         s1.locals[var] = bound
+        guard = self.ex(guard_e, s1) if guard_e is not None else None
         v1 = self.block(then, s1)
         v2 = self.block(els, s2) if els else None
+
+        def pick(a, b):
+            if a == b:
+                return a
+            inner = f"(if {guard} then {a} else {b})" if guard else a
+            return f"(match {sv} with | some {bound} => {inner} | none => {b})"
+
+        if s1.ret is not None and s1.ret[0] == "always" and s2.ret is None:
+            # `if let … { return r; }` followed by more code: an early return under a match condition
+            st.ret = ("iflet-then", (sv, bound, guard), s1.ret, dict(s1.places))
+            return None
         if s1.ret is not None or s2.ret is not None:
-            raise TranslateError("return inside `if let` not supported")
+            raise TranslateError("unsupported return inside `if let`")
         for p in set(s1.places) | set(s2.places):
             a = s1.places.get(p, self.atoms.get(p, UNDEF))
             b = s2.places.get(p, self.atoms.get(p, UNDEF))
-            st.places[p] = a if a == b else f"(match {sv} with | some {bound} => {a} | none => {b})"
+            st.places[p] = pick(a, b)
         if v1 is not None and v2 is not None:
-            return f"(match {sv} with | some {bound} => {v1} | none => {v2})"
+            return pick(v1, v2)
+        return None
+
+    # ---- match ----
+    def lean_pat(self, p, binds):
+        k = p[0]
+        if k == "mp_wild":
+            return "_"
+        if k == "mp_lit":
+            return p[1]
+        if k == "mp_var":
+            self.fresh += 1
+            binds[p[1]] = f"{p[1]}_{self.fresh}"
+            return binds[p[1]]
+        if k == "mp_tuple":
+            return "(" + ", ".join(self.lean_pat(q, binds) for q in p[1]) + ")"
+        name, args = p[1], p[2]
+        table = {"Some": "some", "None": "none", "Ok": ".ok", "Err": ".error", "true": "true", "false": "false"}
+        table.update(self.spec.get("patterns", {}))
+        if name not in table:
+            raise TranslateError(f"pattern constructor {name!r} needs a `patterns` entry")
+        head = table[name]
+        if not args:
+            return head
+        return "(" + head + " " + " ".join(self.lean_pat(q, binds) for q in args) + ")"
+
+    @staticmethod
+    def irrefutable(p):
+        return p[0] in ("mp_wild", "mp_var") or (p[0] == "mp_tuple" and all(Translator.irrefutable(q) for q in p[1]))
+
+    def match_expr(self, e, st, tail=True):
+        _, scrut, arms = e
+        sv = self.ex(scrut, st)
+        flat = []   # one entry per (single pattern, guard, body)
+        for pats, guard, body in arms:
+            for p in pats:
+                flat.append((p, guard, body))
+        results = []
+        for p, guard, body in flat:
+            binds = {}
+            lp = self.lean_pat(p, binds)
+            s1 = st.copy()
+            s1.locals.update(binds)
+            g = self.ex(guard, s1) if guard is not None else None
+            v = self.block(body, s1)
+            if s1.ret is not None:
+                if s1.ret[0] != "always" or v is not None:
+                    raise TranslateError("unsupported return inside a match arm")
+                v = s1.ret[1]   # `=> return x` in tail position is the value x
+                self.match_returned = True
+            results.append((p, lp, g, v, s1.places))
+
+        def build(select, i=0):
+            """first-match semantics: runs of unguarded arms become one Lean match; a guarded arm falls through
+            to the translation of the remaining arms when its pattern or its guard fails"""
+            if i == len(results):
+                return None
+            p, lp, g, _, _ = results[i]
+            if g is None:
+                alts, k = [], i
+                while k < len(results) and results[k][2] is None:
+                    alts.append(f"| {results[k][1]} => {select(results[k])}")
+                    k += 1
+                    if self.irrefutable(results[k - 1][0]):
+                        return f"(match {sv} with {' '.join(alts)})" if len(alts) > 1 or results[k - 1][0][0] != "mp_wild" else select(results[k - 1])
+                rest = build(select, k)
+                if rest is not None:
+                    alts.append(f"| _ => {rest}")
+                return f"(match {sv} with {' '.join(alts)})"
+            val = select(results[i])
+            rest = build(select, i + 1)
+            if rest is None:
+                raise TranslateError("guarded match arm without a following arm")
+            if self.irrefutable(p):
+                inner = f"(if {g} then {val} else {rest})"
+                return inner if p[0] == "mp_wild" else f"(match {sv} with | {lp} => {inner})"
+            return f"(match {sv} with | {lp} => (if {g} then {val} else {rest}) | _ => {rest})"
+
+        for pl in sorted({q for r in results for q in r[4]}):
+            vals = [r[4].get(pl, self.atoms.get(pl, UNDEF)) for r in results]
+            st.places[pl] = vals[0] if all(v == vals[0] for v in vals) else build(lambda r, pl=pl: r[4].get(pl, self.atoms.get(pl, UNDEF)))
+        if all(r[3] is not None for r in results):
+            return build(lambda r: r[3])
+        if any(r[3] is not None for r in results):
+            raise TranslateError("match arms with and without a value")
         return None
 
     def merge(self, st, cond, s1, s2):
@@ -578,6 +773,17 @@ class Translator:
                     self.if_expr(e, st)
                 elif e[0] == "iflet":
                     self.iflet_expr(e, st)
+                elif e[0] == "match":
+                    self.match_expr(e, st)
+                elif re.sub(r"\s+", "", unparse(e)) in self.effects:
+                    # a statement whose effect on the modelled places is given by the spec:
+                    # {"stmt text": {"place": "lean template with {place} / {local} / {self.place}"}}
+                    upd = self.effects[re.sub(r"\s+", "", unparse(e))]
+                    cur = dict(st.places)
+                    def fill(t):
+                        return re.sub(r"\{([\w.]+)\}", lambda m: cur.get(m.group(1), st.locals.get(m.group(1), self.atoms.get(m.group(1), m.group(0)))), t)
+                    for place, tpl in upd.items():
+                        st.places[re.sub(r"\s+", "", place)] = fill(tpl)
                 elif e[0] == "mcall" and e[2] in self.methods:
                     self.ex(e, st)
                 elif e[0] == "mcall" and unparse(e[1]) == "self" and e[2] in self.inline:
@@ -588,6 +794,27 @@ class Translator:
                     pass
                 else:
                     raise TranslateError(f"statement with unknown effect: {unparse(e)!r}")
+                if st.ret is not None and st.ret[0] == "iflet-then":
+                    _, (sv, bound, guard), r, ret_places = st.ret
+                    st.ret = None
+                    tail = self.block(("block", stmts[idx + 1:]), st)
+                    if st.ret is not None:
+                        tail = self.wrap_ret(st.ret, tail, st) if st.ret[0] != "always" else st.ret[1]
+                        st.ret = None
+
+                    def pick(a, b):
+                        if a == b:
+                            return a
+                        inner = f"(if {guard} then {a} else {b})" if guard else a
+                        return f"(match {sv} with | some {bound} => {inner} | none => {b})"
+                    for p in set(st.places) | set(ret_places):
+                        st.places[p] = pick(ret_places.get(p, self.atoms.get(p, UNDEF)), st.places.get(p, self.atoms.get(p, UNDEF)))
+                    rv = r[1]
+                    if tail is None and rv == "()":
+                        return None
+                    if tail is None:
+                        raise TranslateError("early return with a value but no value on the fall-through path")
+                    return pick(rv, tail)
                 if st.ret is not None and st.ret[0] in ("then", "else", "both"):
                     # code after a conditional early return: continue symbolically with the rest, then wrap
                     rest = ("block", stmts[idx + 1:])
@@ -603,6 +830,28 @@ class Translator:
                                 a, b = b, a
                             st.places[p] = a if a == b else f"(if {pending[1]} then {a} else {b})"
                     return out
+            elif k == "letelse":
+                _, ctor, var, scrut, els = s
+                sv = self.ex(scrut, st)
+                s_else = st.copy()
+                self.block(els, s_else)
+                if s_else.ret is None or s_else.ret[0] != "always":
+                    raise TranslateError("`let … else` block must return")
+                self.fresh += 1
+                bound = f"{var}_{self.fresh}"
+                s_rest = st.copy()
+                s_rest.locals[var] = bound
+                v_rest = self.block(("block", stmts[idx + 1:]), s_rest)
+                if s_rest.ret is not None:
+                    v_rest = self.wrap_ret(s_rest.ret, v_rest, s_rest) if s_rest.ret[0] != "always" else s_rest.ret[1]
+                if v_rest is None:
+                    raise TranslateError("code after `let … else` has no value")
+                pat, other = (f"some {bound}", "none") if ctor == "Some" else (f".ok {bound}", ".error _")
+                for p in set(s_rest.places) | set(s_else.places):
+                    a = s_rest.places.get(p, self.atoms.get(p, UNDEF))
+                    b = s_else.places.get(p, self.atoms.get(p, UNDEF))
+                    st.places[p] = a if a == b else f"(match {sv} with | {pat} => {a} | {other} => {b})"
+                return f"(match {sv} with | {pat} => {v_rest} | {other} => {s_else.ret[1]})"
             elif k == "return":
                 st.ret = ("always", self.ex(s[1], st) if s[1] is not None else "()")
                 return None
@@ -680,6 +929,12 @@ def translate(spec, repo):
     st = State({}, {}, None)
     for place, term in spec.get("places", {}).items():
         st.places[re.sub(r"\s+", "", place)] = term
+    if spec.get("anchor"):
+        m = re.search(spec["anchor"], body, re.S)
+        if not m:
+            raise TranslateError(f"anchor {spec['anchor']!r} not found in fn {spec['fn']}")
+        o = body.index("{", m.end() - 1) if body[m.end() - 1] != "{" else m.end() - 1
+        body = body[o + 1:balanced(body, o)]
     blk = Parser(tokenize(body)).block_body(until="")
     v = tr.block(blk, st)
     if st.ret is not None:
